@@ -585,7 +585,9 @@ func c18Graph(c *GCase, r *core.Rec) {
 		c18SCC(adj, g, comp, r)
 		c18Simplify(adj, r)
 		c18BiGraph(adj, r)
-		c18Dot(adj, r)
+		if !c.Light {
+			c18Dot(adj, r)
+		}
 	}
 	if !equalAdj([][]int(g), snapshot) {
 		r.Fail("graph-modified", "the graph was modified by a read-only operation")
@@ -1000,6 +1002,30 @@ func c18Run(c *core.Ctx) {
 		}
 	}
 	r.Bound("digraphs", fmt.Sprintf("all digraphs with self-loops on n<=%d nodes x every root", maxN))
+	if maxN < 5 {
+		// quick: the complete family of 5-node graphs with an entry node (no edge into node 0)
+		const n = 5
+		for code := uint64(0); code < 1<<20; code++ {
+			if !c.Mine() {
+				continue
+			}
+			var full uint64
+			b := uint(0)
+			for u := 0; u < n; u++ {
+				for v := 1; v < n; v++ {
+					if code>>b&1 != 0 {
+						full |= 1 << uint(u*n+v)
+					}
+					b++
+				}
+			}
+			gc.Adj, gc.Root, gc.Light = enum.Digraph(n, full), 0, true
+			r.Case("graph", gc)
+			r.Try(func() { c18Graph(gc, r) })
+		}
+		gc.Light = false
+		r.Bound("entry_graphs_5", "all 2^20 digraphs on 5 nodes in which node 0 has no incoming edge, root 0")
+	}
 	var multi [][][]int // multigraphs n<=2 for Equal
 	for n := 1; n <= 3; n++ {
 		var lists [][]int
